@@ -343,4 +343,221 @@ Proof.
     + exact (proj1 H1).
 Qed.
 
+
+(* ------------------------------------------------------------------------------------------ *)
+(** * shift invariance of uniform-cubic periodic splines, and a representable family of potentials that are
+      constant along field lines for iota <> 0
+
+    On the uniform periodic cubic space with n cells of width dx on [0, n*dx] a coefficient array is
+    periodic: c[i] = g(i mod n), i < n+3.  [ai_per g n r] is the array of g rotated by r cells,
+    c[i] = g((i - r) mod n).  Translating the evaluation point by t cells (modulo the period) and the
+    coefficients by t cells gives the same value ([ai_cu_shift_eval]).  Hence, when the twist per z cell
+    iota*dz/R0 is a whole number c of theta cells and c*nz is a multiple of n (the field line closes after
+    the z period), the potentials whose theta-spline on plane m is the spline of plane 0 rotated by c*m
+    cells are constant along field lines, and their parallel gradient vanishes ([ai_pgr_aligned_family_zero]).
+    When the twist per cell is NOT a whole number of theta cells the translate of a spline by the twist has
+    its knots off the knot lattice and is not in the spline space (unless it is a single polynomial, i.e. a
+    constant on a periodic space): no non-constant potential that is constant along field lines is then
+    representable plane by plane, and c13_aligned_zero applies to approximations only. *)
+
+Definition ai_per (g : Z -> F) (n : nat) (r : Z) : list F :=
+  map (fun i => g ((Z.of_nat i - r) mod Z.of_nat n)%Z) (seq 0 (n + 3)).
+
+Lemma ai_per_length g n r : length (ai_per g n r) = (n + 3)%nat.
+Proof. unfold ai_per. rewrite map_length, seq_length. reflexivity. Qed.
+Lemma ai_per_nth g n r i : (i < n + 3)%nat -> nth i (ai_per g n r) 0 = g ((Z.of_nat i - r) mod Z.of_nat n)%Z.
+Proof. intros H. unfold ai_per. rewrite (sp_nth_map_seq F (fun i => g ((Z.of_nat i - r) mod Z.of_nat n)%Z) 0 (n + 3) 0 i H). reflexivity. Qed.
+
+Lemma ai_ofn_mul a b : ofn (a * b) = ofn a * ofn b.
+Proof.
+  induction a as [|a IH]; [cbn; ring|]. cbn [Nat.mul]. rewrite (sp_ofnat_add F K HK), IH, (sp_ofnat_S F K). ring.
+Qed.
+Lemma ai_ofZ_mul a b : ofZ (a * b) = ofZ a * ofZ b.
+Proof.
+  assert (P : forall x y : nat, ofZ (Z.of_nat x * Z.of_nat y) = ofZ (Z.of_nat x) * ofZ (Z.of_nat y)).
+  { intros x y. rewrite <- Nat2Z.inj_mul, !(adv_ofZ_of_nat F K HK). apply ai_ofn_mul. }
+  destruct (Z.le_gt_cases 0 a) as [Ha|Ha]; destruct (Z.le_gt_cases 0 b) as [Hb|Hb].
+  - rewrite <- (Z2Nat.id a Ha), <- (Z2Nat.id b Hb). apply P.
+  - replace b with (- Z.of_nat (Z.to_nat (- b)))%Z by lia. rewrite <- (Z2Nat.id a Ha) at 1 2.
+    rewrite Z.mul_opp_r, !(adv_ofZ_opp F K HK), P. ring.
+  - replace a with (- Z.of_nat (Z.to_nat (- a)))%Z by lia. rewrite <- (Z2Nat.id b Hb) at 1 2.
+    rewrite Z.mul_opp_l, !(adv_ofZ_opp F K HK), P. ring.
+  - replace a with (- Z.of_nat (Z.to_nat (- a)))%Z by lia. replace b with (- Z.of_nat (Z.to_nat (- b)))%Z by lia.
+    rewrite Z.mul_opp_opp, !(adv_ofZ_opp F K HK), P. ring.
+Qed.
+
+Lemma ai_ofn_lt_S a : ofn a < ofn a + 1.
+Proof. split; [apply (sp_le_add_r F K HK), (sp_0_le_1 F K HK)|]. intros E. apply (sp_1_neq_0 F K HK).
+  replace 1 with ((ofn a + 1) - ofn a) by ring. rewrite <- E. ring. Qed.
+
+(** int() of a non-negative number in [a, a+1) is a *)
+Lemma ai_trunc_unique y a : sp_trunc_ok F K -> ofn a <= y -> y < ofn a + 1 -> sptrunc K y = Z.of_nat a.
+Proof.
+  intros Htr H1 H2.
+  assert (Hy : 0 <= y) by (apply (spl_le_trans K HK) with (ofn a); [apply (sp_ofnat_nonneg F K HK)|exact H1]).
+  destruct (Htr y Hy) as [T0 [T1 T2]]. rewrite <- (adv_ofZ_of_nat F K HK) in H1, H2.
+  assert (A1 : (sptrunc K y <= Z.of_nat a)%Z) by (apply ai_ofZ_gap; apply (sp_le_lt_trans F K HK) with y; assumption).
+  assert (A2 : (Z.of_nat a <= sptrunc K y)%Z) by (apply ai_ofZ_gap; apply (sp_le_lt_trans F K HK) with y; assumption).
+  lia.
+Qed.
+
+Section UniformCubic.
+Variables (dx xmax fn : F) (rest : list F) (n : nat).
+Let knots := 0 :: xmax :: dx :: fn :: rest.
+Hypothesis Htr : adv_trunc_ok F K.
+Hypothesis Hdx : 0 < dx.
+Hypothesis Hn : (3 <= n)%nat.
+Hypothesis Hfn : sptrunc K fn = Z.of_nat n.
+Hypothesis Hmax : xmax = ofn n * dx.
+
+Lemma ai_dx_ne0 : dx <> 0.
+Proof. intros E. apply (proj2 Hdx). symmetry. exact E. Qed.
+
+(** a point in cell a with offset o *)
+Definition ai_pt (a : nat) (o : F) : F := ofn a * dx + o * dx.
+
+Lemma ai_cu_span_of a o : (a < n)%nat -> 0 <= o -> o < 1 ->
+  sp_cu_find_span F K 0 xmax dx (ai_pt a o) (Z.of_nat n) = SpOk (Z.of_nat (a + 3), (ai_pt a o - 0) / dx - ofZ (Z.of_nat a)).
+Proof.
+  intros Ha Ho0 Ho1. pose proof ai_dx_ne0 as Hd. unfold sp_cu_find_span.
+  destruct (sp_eqb_spec F K HK dx 0) as [E|_]; [contradiction|]. cbv zeta.
+  assert (Ev : (ai_pt a o - 0) / dx = ofn a + o) by (unfold ai_pt; field; exact Hd).
+  assert (Et : sptrunc K ((ai_pt a o - 0) / dx) = Z.of_nat a).
+  { rewrite Ev. apply (ai_trunc_unique _ a (proj1 Htr)).
+    - apply (sp_le_add_r F K HK), Ho0.
+    - replace (ofn a + o) with (o + ofn a) by ring. replace (ofn a + 1) with (1 + ofn a) by ring.
+      apply (adv_lt_add_r F K HK), Ho1. }
+  rewrite Et. destruct (Z.eqb_spec (Z.of_nat a) (Z.of_nat n)); [lia|]. f_equal. f_equal. lia.
+Qed.
+
+(** the value of the periodic spline with coefficients g rotated by r at a point of cell a *)
+Definition ai_cu_val (g : Z -> F) (r : Z) (a : nat) (o : F) : F :=
+  Sums.sumr F 0 (spadd K) 0 4 (fun j => g ((Z.of_nat (a + j) - r) mod Z.of_nat n)%Z * nth j (sp_cu_basis_funs F K o) 0).
+
+Lemma ai_cu_eval_per g r a o : (a < n)%nat -> 0 <= o -> o < 1 ->
+  adv_ev F K true knots 3 (ai_per g n r) (ai_pt a o) = SpOk (ai_cu_val g r a o).
+Proof.
+  intros Ha Ho0 Ho1. pose proof ai_dx_ne0 as Hd. unfold adv_ev, knots.
+  rewrite (sp_cu_eval_1d_scalar_spec F K HK 0 xmax dx fn rest (ai_per g n r) (ai_pt a o) 0 (Z.of_nat (a + 3))
+             ((ai_pt a o - 0) / dx - ofZ (Z.of_nat a))).
+  - f_equal. unfold ai_cu_val. apply Sums.sumr_ext. intros j Hj. rewrite Nat2Z.id.
+    rewrite ai_per_nth by lia. replace (a + 3 - 3 + j)%nat with (a + j)%nat by lia. f_equal.
+    f_equal. f_equal. rewrite (adv_ofZ_of_nat F K HK). unfold ai_pt. field. exact Hd.
+  - rewrite Hfn. apply ai_cu_span_of; assumption.
+  - lia.
+  - lia.
+  - rewrite Nat2Z.id, ai_per_length. lia.
+Qed.
+
+(** (x + t cells) mod period, for x in cell a0: cell (a0 + t) mod n, same offset *)
+Lemma ai_mod_cells a0 o (t : Z) : (a0 < n)%nat -> 0 <= o -> o < 1 ->
+  adv_mod F K (ai_pt a0 o + ofZ t * dx) xmax = ai_pt (Z.to_nat ((Z.of_nat a0 + t) mod Z.of_nat n)) o.
+Proof.
+  intros Ha Ho0 Ho1. pose proof ai_dx_ne0 as Hd.
+  assert (Hnpos : (0 < Z.of_nat n)%Z) by lia.
+  set (q := ((Z.of_nat a0 + t) / Z.of_nat n)%Z). set (r := ((Z.of_nat a0 + t) mod Z.of_nat n)%Z).
+  pose proof (Z.div_mod (Z.of_nat a0 + t) (Z.of_nat n) ltac:(lia)) as Hdm. fold q r in Hdm.
+  pose proof (Z.mod_pos_bound (Z.of_nat a0 + t) (Z.of_nat n) Hnpos) as Hr. fold r in Hr.
+  assert (Hn0 : ofn n <> 0).
+  { intros E. assert (H1 : ofn 1 <= ofn n) by (apply (sp_ofnat_mono F K HK); lia). rewrite E in H1.
+    apply (sp_lt_irrefl_le F K HK 0 (ofn 1)); [|exact H1]. replace (ofn 1) with (0 + 1) by (cbn; ring).
+    replace 0 with (ofn 0) at 1 by reflexivity. apply ai_ofn_lt_S. }
+  assert (Ex : ai_pt a0 o + ofZ t * dx = (ofZ (Z.of_nat n) * ofZ q + ofn (Z.to_nat r) + o) * dx).
+  { unfold ai_pt. rewrite <- (adv_ofZ_of_nat F K HK a0). rewrite <- (adv_ofZ_of_nat F K HK (Z.to_nat r)), Z2Nat.id by lia.
+    rewrite <- ai_ofZ_mul. replace (ofZ (Z.of_nat a0) * dx + o * dx + ofZ t * dx) with ((ofZ (Z.of_nat a0) + ofZ t + o) * dx) by ring.
+    rewrite <- (adv_ofZ_add F K HK (Z.of_nat a0) t), Hdm, (adv_ofZ_add F K HK). reflexivity. }
+  unfold adv_mod. rewrite (ai_floor_unique _ q Htr).
+  - rewrite Ex, Hmax. unfold ai_pt. rewrite (adv_ofZ_of_nat F K HK). ring.
+  - (* ofZ q <= y / xmax *)
+    rewrite Ex, Hmax, (adv_ofZ_of_nat F K HK).
+    replace ((ofn n * ofZ q + ofn (Z.to_nat r) + o) * dx / (ofn n * dx)) with (ofZ q + (ofn (Z.to_nat r) + o) / ofn n)
+      by (field; split; assumption).
+    apply (sp_le_add_r F K HK). apply (sp_div_nonneg F K HK).
+    + apply (sp_add_nonneg F K HK); [apply (sp_ofnat_nonneg F K HK)|exact Ho0].
+    + split; [apply (sp_ofnat_nonneg F K HK)|]. intros E. apply Hn0. symmetry. exact E.
+  - rewrite Ex, Hmax, (adv_ofZ_of_nat F K HK).
+    replace ((ofn n * ofZ q + ofn (Z.to_nat r) + o) * dx / (ofn n * dx)) with ((ofn (Z.to_nat r) + o) / ofn n + ofZ q)
+      by (field; split; assumption).
+    replace (ofZ q + 1) with (1 + ofZ q) by ring. apply (adv_lt_add_r F K HK).
+    assert (Hnn : 0 < ofn n) by (split; [apply (sp_ofnat_nonneg F K HK)|intros E; apply Hn0; symmetry; exact E]).
+    replace ((ofn (Z.to_nat r) + o) / ofn n) with ((1 / ofn n) * (ofn (Z.to_nat r) + o)) by (field; exact Hn0).
+    assert (G : (1 / ofn n) * (ofn (Z.to_nat r) + o) < (1 / ofn n) * ofn n).
+    { apply ai_mul_lt_l.
+      + split; [apply (sp_inv_nonneg F K HK), Hnn|]. intros E. apply (sp_1_neq_0 F K HK).
+        replace 1 with ((1 / ofn n) * ofn n) by (field; exact Hn0). rewrite <- E. ring.
+      + apply (sp_lt_le_trans F K HK) with (ofn (Z.to_nat r) + 1).
+        * replace (ofn (Z.to_nat r) + o) with (o + ofn (Z.to_nat r)) by ring.
+          replace (ofn (Z.to_nat r) + 1) with (1 + ofn (Z.to_nat r)) by ring. apply (adv_lt_add_r F K HK), Ho1.
+        * rewrite <- (sp_ofnat_S F K). apply (sp_ofnat_mono F K HK). lia. }
+    replace ((1 / ofn n) * ofn n) with 1 in G by (field; exact Hn0). exact G.
+Qed.
+
+(** shift invariance: translate the point by t cells (mod the period) and rotate the coefficients by t cells *)
+Theorem ai_cu_shift_eval g r (t : Z) a o : (a < n)%nat -> 0 <= o -> o < 1 ->
+  adv_ev F K true knots 3 (ai_per g n (r + t)) (adv_mod F K (ai_pt a o + ofZ t * dx) xmax)
+  = adv_ev F K true knots 3 (ai_per g n r) (ai_pt a o).
+Proof.
+  intros Ha Ho0 Ho1. rewrite ai_mod_cells by assumption.
+  assert (Hnpos : (0 < Z.of_nat n)%Z) by lia.
+  pose proof (Z.mod_pos_bound (Z.of_nat a + t) (Z.of_nat n) Hnpos) as Hr.
+  rewrite !ai_cu_eval_per by (try assumption; lia). f_equal. unfold ai_cu_val.
+  apply Sums.sumr_ext. intros j Hj. f_equal. f_equal.
+  rewrite Nat2Z.inj_add, Z2Nat.id by lia. rewrite Nat2Z.inj_add.
+  replace ((Z.of_nat a + t) mod Z.of_nat n + Z.of_nat j - (r + t))%Z
+    with ((Z.of_nat a + t) mod Z.of_nat n + (Z.of_nat j - r - t))%Z by lia.
+  rewrite Z.add_mod_idemp_l by lia. f_equal. lia.
+Qed.
+
+(** C13, iota <> 0: a representable family of potentials constant along field lines has zero parallel gradient.
+    twist per z cell = c theta cells; plane m carries the spline of plane 0 rotated by c*m cells; n | c*nz. *)
+Theorem ai_pgr_aligned_family_zero (g : Z -> F) (c : Z) pi nz nord qVals (aq : nat -> nat) (oq : nat -> F)
+  (cs : list (list F)) dz iota R0 tv coeffs bz inv_dz :
+  sp_two F K * pi = xmax -> R0 <> 0 ->
+  iota * dz / R0 = ofZ c * dx ->
+  ((c * Z.of_nat nz) mod Z.of_nat n = 0)%Z ->
+  (2 <= nord)%nat -> (nord <= nz)%nat -> length cs = nz ->
+  (forall q, (q < length qVals)%nat -> nth q qVals 0 = ai_pt (aq q) (oq q) /\ (aq q < n)%nat /\ 0 <= oq q /\ oq q < 1) ->
+  (forall m, (m < nz)%nat -> nth m cs [] = ai_per g n (c * Z.of_nat m)) ->
+  pgr_theta_vals F K nz (pgr_shifts nord) qVals dz iota R0 pi = SpOk tv ->
+  pgr_moments_ok F K (pgr_shifts nord) coeffs = true ->
+  pgr_parallel_gradient F K (adv_ev F K true knots 3) nz (length qVals) nord cs tv (pgr_shifts nord) coeffs bz inv_dz
+  = SpOk (map (fun _ => map (fun _ => 0) (seq 0 (length qVals))) (seq 0 nz)).
+Proof.
+  intros Hpi HR0 Htw Hclose Hn2 Hnz Hcs Hq Hrows Htv Hmom.
+  destruct (ai_theta_vals_shape _ _ _ _ _ _ _ _ Htv) as [T1 [T2 [T3 T4]]]. rewrite pgr_shifts_length in *.
+  assert (Hco : length coeffs = nord).
+  { unfold pgr_moments_ok in Hmom. apply andb_true_iff in Hmom. destruct Hmom as [Hm _]. apply Nat.eqb_eq in Hm.
+    rewrite pgr_shifts_length in Hm. symmetry. exact Hm. }
+  set (V := fun (i k q : nat) => ai_cu_val g (c * (Z.of_nat i - nth k (pgr_shifts nord) 0%Z)) (aq q) (oq q)).
+  rewrite (pgr_pargrad_formula F K HK (adv_ev F K true knots 3) nz (length qVals) nord cs tv coeffs bz inv_dz V);
+    try assumption; try lia.
+  - f_equal. apply map_ext_in. intros z Hz. apply in_seq in Hz. apply map_ext_in. intros q Hqq. apply in_seq in Hqq.
+    apply (pgr_aligned_zero F K HK nz nord coeffs bz inv_dz V z q (ai_cu_val g (c * Z.of_nat z) (aq q) (oq q))); [exact Hco| |].
+    + rewrite <- Hco. apply (pgr_moment0 F K HK (pgr_shifts nord)); [exact Hmom|lia].
+    + intros k Hk. unfold V, ai_cu_val. apply Sums.sumr_ext. intros j Hj. f_equal. f_equal.
+      (* c * ((z + s) mod nz - s) = c*z  modulo n, because n | c*nz *)
+      set (sk := nth k (pgr_shifts nord) 0%Z). unfold fx_src.
+      assert (Hnzp : (0 < Z.of_nat nz)%Z) by lia.
+      pose proof (Z.mod_pos_bound (Z.of_nat z + sk) (Z.of_nat nz) Hnzp) as Hb. rewrite Z2Nat.id by lia.
+      pose proof (Z.div_mod (Z.of_nat z + sk) (Z.of_nat nz) ltac:(lia)) as Hdm.
+      set (t := ((Z.of_nat z + sk) / Z.of_nat nz)%Z) in *.
+      replace (c * ((Z.of_nat z + sk) mod Z.of_nat nz - sk))%Z with (c * Z.of_nat z - (c * Z.of_nat nz) * t)%Z by nia.
+      assert (Hn3 : (0 < Z.of_nat n)%Z) by lia.
+      replace (Z.of_nat (aq q + j) - (c * Z.of_nat z - c * Z.of_nat nz * t))%Z
+        with ((Z.of_nat (aq q + j) - c * Z.of_nat z) + t * (c * Z.of_nat nz))%Z by lia.
+      rewrite <- Z.add_mod_idemp_r by lia. rewrite <- Z.mul_mod_idemp_r by lia. rewrite Hclose, Z.mul_0_r, Z.mod_0_l by lia.
+      rewrite Z.add_0_r. reflexivity.
+  - intros i k q Hi Hk Hqq. rewrite T4 by assumption. unfold pgr_fieldline. rewrite Hpi.
+    destruct (Hq q Hqq) as [Eq [Haq [Ho0 Ho1]]]. rewrite Eq, (Hrows i Hi).
+    set (sk := nth k (pgr_shifts nord) 0%Z).
+    replace (iota * (dz * ofZ sk) / R0) with (ofZ (c * sk) * dx).
+    2:{ rewrite ai_ofZ_mul. replace (iota * (dz * ofZ sk) / R0) with ((iota * dz / R0) * ofZ sk) by (field; exact HR0).
+        rewrite Htw. ring. }
+    replace (c * Z.of_nat i)%Z with (c * (Z.of_nat i - sk) + c * sk)%Z by lia.
+    rewrite (ai_cu_shift_eval g (c * (Z.of_nat i - sk)) (c * sk) (aq q) (oq q) Haq Ho0 Ho1).
+    apply ai_cu_eval_per; assumption.
+Qed.
+
+End UniformCubic.
+
 End AdvInterp.
